@@ -1107,6 +1107,9 @@ class WcParse(Generic[AnyStr]):
                     if self._sequence_range_check(result, '\\' + c):
                         removed = True
                     end_range = 0
+                    # The range end may have been more than one character (an escape):
+                    # a hyphen directly after it cannot start a new range.
+                    escape_hyphen = i.index
                 else:
                     result.append('\\' + c)
                 c = next(i)
@@ -1145,6 +1148,9 @@ class WcParse(Generic[AnyStr]):
                 if self._sequence_range_check(result, value):
                     removed = True
                 end_range = 0
+                # The range end may have been more than one character (an escape):
+                # a hyphen directly after it cannot start a new range.
+                escape_hyphen = i.index
             else:
                 result.append(value)
 
